@@ -36,6 +36,18 @@ def compute_constraints_of_expression(expression, ir):
     """Adds appropriate bounding constraints to the given expression."""
     if ir_util.is_constant_type(expression.type):
         return
+    if expression.type.which_type == "integer":
+        integer_type = ir_data_utils.reader(expression.type.integer)
+        if (
+            integer_type.modulus
+            and integer_type.modular_value
+            and integer_type.minimum_value
+            and integer_type.maximum_value
+        ):
+            # Already computed.  Virtual fields are reached once per reference,
+            # so without this a chain of `let a1 = $max(a0, a0)`, `let a2 =
+            # $max(a1, a1)`, ... takes time exponential in its length.
+            return
     expression_variety = expression.which_expression
     if expression_variety == "constant":
         _compute_constant_value_of_constant(expression)
